@@ -430,6 +430,54 @@ func (g *c02Gen) stepRandom() {
 	}
 }
 
+// lagPhase: one follower is cut off while the leader commits a few batches with the others, snapshots what it applied
+// and trims its log; then the follower is reconnected (it will need the snapshot or the kept log suffix).
+func (g *c02Gen) lagPhase() {
+	s, r := g.s, g.r
+	var l *vsNode
+	for _, n := range s.nodes[1:] {
+		if n.role() == 2 && (l == nil || n.st.term > l.st.term) {
+			l = n
+		}
+	}
+	if l == nil || l.core.latestConf == nil || len(l.core.latestConf.Members) < 3 {
+		return
+	}
+	var others []int
+	for _, m := range l.core.latestConf.Members {
+		if int(vsNum(m)) != l.i {
+			others = append(others, int(vsNum(m)))
+		}
+	}
+	f := others[r.Intn(len(others))]
+	g.isolated = map[int]bool{f: true}
+	for b := r.Range(2, 3); b > 0 && l.role() == 2; b-- {
+		s.step(s.evPropose(l.i, []int64{s.freshCmd(), s.freshCmd()}))
+		for i := 0; i < 24; i++ {
+			p := s.pending(g.deliverable)
+			if len(p) == 0 {
+				break
+			}
+			s.step(s.evDeliver(p[0]))
+			s.maybeNop(p[0].to)
+		}
+		s.step(s.evTick(l.i))
+	}
+	for i := 0; i < 12; i++ {
+		p := s.pending(g.deliverable)
+		if len(p) == 0 {
+			break
+		}
+		s.step(s.evDeliver(p[0]))
+	}
+	if s.snapBegin(l.i) {
+		s.snapDone(l.i)
+	}
+	g.isolated = map[int]bool{}
+	s.dropPending(func(m *vsSoupMsg) bool { return m.to == f || m.from == f })
+	vsChildStat("lag.phases", 1)
+}
+
 func (g *c02Gen) tick() {
 	s, r := g.s, g.r
 	ls := g.leadersReady(false)
@@ -484,12 +532,23 @@ func c02RunCase(ci int, r *vw.Rng, tr *vsTrace, _, _ int) {
 		c02Finish(s, id, true)
 		return
 	}
+	if ci < len(c02Corpus)+2 {
+		s := c02Exhaustive(ci-len(c02Corpus), id, tr)
+		c02Finish(s, id, true)
+		return
+	}
 	cfg := vsRandCfg(r)
+	if r.Chance(1, 3) {
+		cfg.keep = uint64(r.PickInt(0, 0, 1))
+	}
 	s := vsNewSim("C02", id, cfg, tr)
 	g := &c02Gen{s: s, r: r, loose: r.Chance(1, 5), churn: r.PickInt(3, 10, 30, 60), isolated: map[int]bool{}}
 	g.members = c02Bootstrap(s, r)
 	if r.Chance(1, 2) {
 		c02WarmUp(s, r, g.members)
+		if r.Chance(1, 2) {
+			g.lagPhase()
+		}
 	}
 	nev := s.evno + r.Range(30, vw.Scale(120, 600))
 	for s.evno < nev {
@@ -538,6 +597,117 @@ func c02Finish(s *vsSim, id string, corpus bool) {
 	if corpus || strings.HasSuffix(id, "7") {
 		vsJournalLine("sample", fmt.Sprintf("case %s: %d events, %d msgs, committed=%d, leaders/term=%v, end: %s", id, s.evno, len(s.soup), len(s.committed), s.leaders, s.describe()))
 	}
+}
+
+// ---------------------------------------------------------------- exhaustive search of short schedules (search support, not a proof)
+// From a warm state every schedule of `depth` further events is explored on clones (deliver any pending message,
+// re-deliver the newest delivered message of each kind, tick / restart any node, propose at any leader); only the monitors
+// look at these states (no trace, no model comparison). States already seen with at least the same remaining depth are cut.
+
+func (s *vsSim) fingerprint() string {
+	var l vw.L
+	for _, n := range s.nodes[1:] {
+		n.proj(&l)
+		l.Add(-7)
+	}
+	for _, sm := range s.soup {
+		if sm.ndeliv == 0 && !sm.dropped {
+			l.AddInt(sm.id)
+		}
+	}
+	return vw.Ints(l)
+}
+
+func (s *vsSim) enumerate() []vsEvent {
+	var evs []vsEvent
+	seen := map[string]bool{}
+	for _, sm := range s.pending(nil) {
+		var l vw.L
+		vsEncMsg(&l, sm.m)
+		k := vw.Ints(l)
+		if !seen[k] {
+			seen[k] = true
+			evs = append(evs, s.evDeliver(sm))
+		}
+	}
+	lastOf := map[string]*vsSoupMsg{}
+	for _, sm := range s.soup {
+		if sm.ndeliv > 0 {
+			lastOf[fmt.Sprint(vsKind(sm.m), sm.to)] = sm
+		}
+	}
+	var keys []string
+	for k := range lastOf {
+		keys = append(keys, k)
+	}
+	sortStrings(keys)
+	for _, k := range keys {
+		evs = append(evs, s.evDeliver(lastOf[k]))
+	}
+	for i := 1; i <= s.cfg.N; i++ {
+		evs = append(evs, s.evTick(i))
+	}
+	for i := 1; i <= s.cfg.N; i++ {
+		evs = append(evs, s.evRestart(i))
+	}
+	for _, n := range s.nodes[1:] {
+		if n.role() == 2 {
+			evs = append(evs, s.evPropose(n.i, []int64{9000 + int64(n.i)}))
+		}
+	}
+	return evs
+}
+
+func sortStrings(a []string) {
+	for i := 1; i < len(a); i++ {
+		for j := i; j > 0 && a[j] < a[j-1]; j-- {
+			a[j], a[j-1] = a[j-1], a[j]
+		}
+	}
+}
+
+func (s *vsSim) dfs(depth int, seen map[string]int, count *int64) {
+	if depth == 0 {
+		return
+	}
+	for _, ev := range s.enumerate() {
+		cl := s.clone()
+		cl.ctxSig = "phase=exhaustive"
+		cl.step(ev)
+		cl.maybeNop(ev.node)
+		*count++
+		fp := cl.fingerprint()
+		if d, ok := seen[fp]; ok && d >= depth-1 {
+			continue
+		}
+		seen[fp] = depth - 1
+		cl.dfs(depth-1, seen, count)
+	}
+}
+
+func c02Exhaustive(variant int, id string, tr *vsTrace) *vsSim {
+	depth := vw.Scale(3, 6)
+	var s *vsSim
+	switch variant {
+	case 0: // fresh election in flight: candidate n1 has asked for votes, nothing delivered yet
+		s = vsNewSim("C02", id, vsCorpusCfg(3, 2, 0), tr)
+		s.step(s.evBootstrap(1, vsAll(3), 5))
+		s.elect(1, 2, 3)
+		s.sync(1, 2, 3)
+		s.tickUntil(2, 1, 10)
+	default: // a leader with uncommitted entries in flight and a follower that just restarted
+		s = vsNewSim("C02", id, vsCorpusCfg(3, 1, 0), tr)
+		s.step(s.evBootstrap(1, vsAll(3), 5))
+		s.elect(1, 2, 3)
+		s.sync(1, 2, 3)
+		s.step(s.evPropose(1, []int64{s.freshCmd(), s.freshCmd()}))
+		s.step(s.evRestart(3))
+	}
+	var count int64
+	s.dfs(depth, map[string]int{}, &count)
+	vsChildStat("exhaustive.states", count)
+	vsChildStat(fmt.Sprintf("exhaustive.depth=%d", depth), 1)
+	return s
 }
 
 func TestVerifC02(t *testing.T) {
